@@ -4,8 +4,6 @@ import math
 import re
 
 from ..src import walk, calls, call_name, dotted, const, loc, unparse, norm, AnchorError, ExtractError, last_attr, parent
-from ..peval import Evaluator, Obj, Unknown, Raised
-from ..cfg import CFG
 from ..symx import SymExec, Opaque, State
 
 CTRL = "wntr/network/controls.py"
@@ -29,31 +27,83 @@ DAY = 86400.0
 RELS = {"eq": lambda a, b: a == b, "gt": lambda a, b: a > b, "ge": lambda a, b: a >= b, "lt": lambda a, b: a < b, "le": lambda a, b: a <= b}
 
 
-def comparison(name):
-    return Obj("Comparison." + name)
+# ------------------------------------------------------------------ concrete evaluation of repository code on mock objects (sa/concrete.py)
+class Mock(object):
+    """plain attribute bag handed to the interpreted code (a read of an attribute it does not have is `could not analyse`)."""
+    _sa_mock = True
+
+    def __init__(self, label="mock", **kw):
+        self._label = label
+        self.__dict__.update(kw)
+
+    def __repr__(self):
+        return "<%s>" % self._label
 
 
-def class_attr(d):
-    parts = d.split(".")
-    if len(parts) == 2 and parts[0] == "Comparison":
-        return comparison(parts[1])
-    raise Unknown(d)
+class _Cmp(object):
+    """member of the stand-in for the enum Comparison (identity semantics, the attributes the enum offers)."""
+    _sa_mock = True
+
+    def __init__(self, idx, name, func, symbol, text):
+        self.name, self.func, self.symbol, self.text = name, func, symbol, text
+        self.value = self._value_ = (idx, func)
+
+    def __call__(self, a, b):
+        return self.func(a, b)
+
+    def __repr__(self):
+        return "Comparison." + self.name
 
 
-def call_hook(name, n, ev):
-    if name in ("np.floor", "math.floor", "numpy.floor"):
-        return float(math.floor(ev.ev(n.args[0])))
-    if name == "int":
-        v = ev.ev(n.args[0])
-        return int(v)
-    return NotImplemented
+def comparison_enum():
+    import operator
+    ns = Mock("Comparison")
+    for i, (nm, f, sym, txt) in enumerate((("gt", operator.gt, ">", "After"), ("ge", operator.ge, ">=", "Above"), ("lt", operator.lt, "<", "Before"),
+                                           ("le", operator.le, "<=", "Below"), ("eq", operator.eq, "=", "Is"), ("ne", operator.ne, "<>", "Not")), 1):
+        setattr(ns, nm, _Cmp(i, nm, f, sym, txt))
+    return ns
 
 
-def run_eval(fn, attrs):
-    selfobj = Obj("self", attrs)
-    ev = Evaluator({"self": selfobj}, class_attr, call_hook)
-    res = ev.run(fn.body)
-    return res, selfobj.attrs.get("_backtrack")
+def make_world(repo, extra=None, fuel=60000000):
+    """a World whose numpy knows the scalar functions time arithmetic uses and whose Comparison enum is the stand-in above."""
+    from ..concrete import World, stdlib_overrides
+    import operator
+    ov, state = stdlib_overrides()
+    np_ = ov["numpy"]
+    for nm, f in (("floor", lambda x: float(math.floor(x))), ("ceil", lambda x: float(math.ceil(x))), ("mod", lambda a, b: a % b), ("remainder", lambda a, b: a % b),
+                  ("floor_divide", lambda a, b: a // b), ("greater", operator.gt), ("greater_equal", operator.ge), ("less", operator.lt), ("less_equal", operator.le),
+                  ("equal", operator.eq), ("not_equal", operator.ne), ("round", round), ("fabs", math.fabs), ("trunc", lambda x: float(math.trunc(x)))):
+        if not hasattr(np_, nm):
+            setattr(np_, nm, f)
+    cmp_ = comparison_enum()
+    ov["wntr.network.controls.Comparison"] = cmp_
+    ov.update(extra or {})
+    world = World(repo, ov, fuel=fuel)
+    world.log_state = state          # {'log_level': n}: what the module loggers report as their effective level
+    return world, cmp_
+
+
+def instance_of(world, rel, clsname, **attrs):
+    """an instance of a repository class whose state is set directly (its constructor is not part of the fact under analysis)."""
+    from ..concrete import Instance, ClassRef
+    c = world.function(rel, clsname)
+    if not isinstance(c, ClassRef):
+        raise AnchorError("%s is not a class of %s" % (clsname, rel))
+    inst = Instance(c)
+    inst._attrs.update(attrs)
+    return inst
+
+
+def interpreted(what, thunk):
+    """run thunk(); -> (value, None) or (None, text of the exception the interpreted program raised).  A program error that only says the
+    mock world lacks something (AttributeError / NameError on our stand-ins) is `could not analyse`."""
+    from ..concrete import ProgramError
+    try:
+        return thunk(), None
+    except ProgramError as e:
+        if isinstance(e.exc, (AttributeError, NameError)):
+            raise ExtractError("%s needs something the mock world does not provide: %s (line %s)" % (what, e, e.lineno))
+        return None, "%s at line %s" % (e, e.lineno)
 
 
 def instants_hit(prev, cur, thr, period, kmin=0):
@@ -68,18 +118,66 @@ def instants_hit(prev, cur, thr, period, kmin=0):
 
 
 def run(repo, chk):
-    # ---------------------------------------------------------------- R-C04-1 / R-C04-2 truth tables
+    condition_rules(repo, chk)             # R-C04-1, R-C04-2
+    scheduler_rules(repo, chk)             # R-C04-3, R-C04-4, R-C04-6 (the scheduler and the two other control runners, by simulation)
+    run_sim_rules(repo, chk)               # R-C04-4, R-C04-6 (what run_sim hands to the scheduler)
+    classification_rules(repo, chk, "R-C04-5")
+    construction_rules(repo, chk)          # R-C04-7
+
+
+# ------------------------------------------------------------------ R-C04-1 / R-C04-2: truth tables of the time conditions, time frames
+def dense_pairs(tmax_h, steps_h=(0.5, 1.0, 1.5), grain_h=0.5):
+    out = []
+    t = 0.0
+    while t <= tmax_h:
+        for st in steps_h:
+            out.append((t * H, (t + st) * H))
+        t += grain_h
+    return out
+
+
+def judge(rel, prev, cur, thr, period, res, bt, frame):
+    region = "prev=%gh cur=%gh" % (prev / H, cur / H)
+    if rel == "eq":
+        hit = instants_hit(prev, cur, thr, period)
+        want = hit is not None
+        if bool(res) != want:
+            return (region, False, "returned %s, the instant %s in (prev, cur]" % (res, "is" if want else "is not"))
+        if want and (bt is None or abs(bt - (cur - hit)) > 1e-9):
+            return (region, False, "backtrack %s, expected %g s" % (bt, cur - hit))
+        return (region, True, "")
+    f = RELS[rel]
+    # the keywords after / before (gt / lt) are accepted with either inclusivity at the single instant t = threshold
+    f_true = {"gt": RELS["ge"], "lt": RELS["le"]}.get(rel, f)
+    if res:
+        if bt is None or bt < 0 or bt > cur - prev:
+            return (region, False, "True with backtrack %s outside [0, cur-prev]" % bt)
+        tstar = cur - bt
+        if not f_true(frame(tstar), thr):
+            return (region, False, "True, but `%s` does not hold at the acting time %gh (clock %gh vs threshold %gh)" % (rel, tstar / H, frame(tstar) / H, thr / H))
+        return (region, True, "")
+    if f(frame(cur), thr):
+        return (region, False, "False, but `%s` holds at the current time %gh (clock %gh vs threshold %gh)" % (rel, cur / H, frame(cur) / H, thr / H))
+    return (region, True, "")
+
+
+def condition_rules(repo, chk):
     sim_fn = repo.func(CTRL, "SimTimeCondition.evaluate")
     tod_fn = repo.func(CTRL, "TimeOfDayCondition.evaluate")
     chk.fn(sim_fn, tod_fn)
-    def dense_pairs(tmax_h, steps_h=(0.5, 1.0, 1.5), grain_h=0.5):
-        out = []
-        t = 0.0
-        while t <= tmax_h:
-            for st in steps_h:
-                out.append((t * H, (t + st) * H))
-            t += grain_h
-        return out
+    world, cmp_ = make_world(repo)
+    it = world.interp
+
+    def evaluate(cname, attrs):
+        """-> (returned value, _backtrack afterwards, error text): the method evaluate of the class, run by the interpreter on an object in the given state."""
+        inst = instance_of(world, CTRL, cname, **attrs)
+        res, err = interpreted("%s.evaluate" % cname, lambda: it.getattr_(inst, "evaluate")())
+        bt = inst._attrs.get("_backtrack")
+        if err is None and not (res is True or res is False or isinstance(res, (int, float))):
+            raise ExtractError("%s.evaluate returned %r" % (cname, res))
+        if bt is not None and not isinstance(bt, (int, float)):
+            raise ExtractError("%s.evaluate left _backtrack = %r" % (cname, bt))
+        return res, bt, err
 
     def table(kind, rel, repeat):
         """-> list of (region, ok, detail).  Representative points of every ordering of previous < current time against the threshold instants:
@@ -93,12 +191,11 @@ def run(repo, chk):
                 for prev, cur in dense_pairs(30 if repeat else 8):
                     if prev == 0.0 and thr == 0.0:
                         continue      # the instant t = 0 is the initial state, not a crossing
-                    model = Obj("wn", {"sim_time": cur, "_prev_sim_time": prev})
-                    attrs = {"_model": model, "_threshold": thr, "_relation": comparison(rel), "_repeat": (period if repeat else False), "_backtrack": 0, "_first_time": 0}
-                    try:
-                        res, bt = run_eval(sim_fn, attrs)
-                    except Raised:
-                        rows.append((("thr=%gh prev=%gh cur=%gh" % (thr / H, prev / H, cur / H)), False, "raised"))
+                    model = Mock("wn", sim_time=cur, _prev_sim_time=prev, _shifted_time=cur, _prev_shifted_time=prev)
+                    attrs = {"_model": model, "_threshold": thr, "_relation": getattr(cmp_, rel), "_repeat": (period if repeat else False), "_backtrack": 0, "_first_time": 0}
+                    res, bt, err = evaluate("SimTimeCondition", attrs)
+                    if err:
+                        rows.append((("thr=%gh prev=%gh cur=%gh" % (thr / H, prev / H, cur / H)), False, "raised " + err))
                         continue
                     rows.append(judge(rel, prev, cur, thr, period, res, bt, frame=lambda t, thr=thr, period=period: t if period is None else ((t - thr) % period + thr if t >= thr else t)))
         else:
@@ -111,40 +208,16 @@ def run(repo, chk):
                             continue          # a once-only clock-time condition lives on its first day
                         if prev == 0.0 and (thr - start) % DAY == 0.0:
                             continue          # threshold instant == start of the simulation: initial state, not a crossing
-                        model = Obj("wn", {"_shifted_time": sc_, "_prev_shifted_time": sp_})
-                        attrs = {"_model": model, "_threshold": thr, "_relation": comparison(rel), "_repeat": bool(repeat), "_backtrack": 0, "_first_day": 0}
-                        try:
-                            res, bt = run_eval(tod_fn, attrs)
-                        except Raised:
-                            rows.append((("thr=%gh start=%gh prev=%gh cur=%gh" % (thr / H, start / H, prev / H, cur / H)), False, "raised"))
+                        opts = Mock("options", time=Mock("options.time", start_clocktime=start))
+                        model = Mock("wn", _shifted_time=sc_, _prev_shifted_time=sp_, sim_time=cur, _prev_sim_time=prev, options=opts)
+                        attrs = {"_model": model, "_threshold": thr, "_relation": getattr(cmp_, rel), "_repeat": bool(repeat), "_backtrack": 0, "_first_day": 0}
+                        res, bt, err = evaluate("TimeOfDayCondition", attrs)
+                        if err:
+                            rows.append((("thr=%gh start=%gh prev=%gh cur=%gh" % (thr / H, start / H, prev / H, cur / H)), False, "raised " + err))
                             continue
                         r_ = judge(rel, sp_, sc_, thr, period, res, bt, frame=(lambda t: t % DAY) if repeat else (lambda t: t))
                         rows.append(("thr=%gh start=%gh %s" % (thr / H, start / H, r_[0]), r_[1], r_[2]))
         return rows
-
-    def judge(rel, prev, cur, thr, period, res, bt, frame):
-        region = "prev=%gh cur=%gh" % (prev / H, cur / H)
-        if rel == "eq":
-            hit = instants_hit(prev, cur, thr, period)
-            want = hit is not None
-            if bool(res) != want:
-                return (region, False, "returned %s, the instant %s in (prev, cur]" % (res, "is" if want else "is not"))
-            if want and (bt is None or abs(bt - (cur - hit)) > 1e-9):
-                return (region, False, "backtrack %s, expected %g s" % (bt, cur - hit))
-            return (region, True, "")
-        f = RELS[rel]
-        # the keywords after / before (gt / lt) are accepted with either inclusivity at the single instant t = threshold
-        f_true = {"gt": RELS["ge"], "lt": RELS["le"]}.get(rel, f)
-        if res:
-            if bt is None or bt < 0 or bt > cur - prev:
-                return (region, False, "True with backtrack %s outside [0, cur-prev]" % bt)
-            tstar = cur - bt
-            if not f_true(frame(tstar), thr):
-                return (region, False, "True, but `%s` does not hold at the acting time %gh (clock %gh vs threshold %gh)" % (rel, tstar / H, frame(tstar) / H, thr / H))
-            return (region, True, "")
-        if f(frame(cur), thr):
-            return (region, False, "False, but `%s` holds at the current time %gh (clock %gh vs threshold %gh)" % (rel, cur / H, frame(cur) / H, thr / H))
-        return (region, True, "")
 
     # a sim-time `repeat` is only meaningful for `at` instants (the class documents that repeat turns the relation into an at-time evaluation)
     combos = [("sim", r, False) for r in ("eq", "gt", "ge", "lt", "le")] + [("sim", "eq", True)] + [("tod", r, rp) for r in ("eq", "gt", "ge", "lt", "le") for rp in (True, False)]
@@ -152,116 +225,468 @@ def run(repo, chk):
         cname = "SimTimeCondition" if kind == "sim" else "TimeOfDayCondition"
         fn = sim_fn if kind == "sim" else tod_fn
         mode = ("repeat every 10 h" if kind == "sim" else "daily") if rp else "once"
-        try:
-            rows = table(kind, rel, rp)
-        except Unknown as e:
-            raise ExtractError("%s.evaluate could not be region-evaluated: %s" % (cname, e))
+        rows = table(kind, rel, rp)
         bad = [(r, d) for r, ok_, d in rows if not ok_]
-        everTrue = any(True for r in rows)
         keyword = {"eq": "at", "gt": "after / >", "ge": ">=", "lt": "before / <", "le": "<="}[rel]
         chk.expect(not bad, "R-C04-1", "%s.evaluate relation %s (%s), %s: true exactly at the instant / on the interval, with the right partial step" % (cname, rel, keyword, mode), loc(fn),
                    "time condition truth table over the orderings of previous < current time against the threshold (threshold 2:00)",
                    expected="instant/interval semantics of the statement", found="; ".join("%s: %s" % b for b in bad[:4]))
         chk.sample({"rule": "R-C04-1", "condition": cname, "relation": rel, "mode": mode, "regions": len(rows), "failing": [b[0] for b in bad]})
     chk.floor("R-C04-1", 16)
-    # frames: the model's shifted time adds start_clocktime to both current and previous time
-    for prop, base in (("_shifted_time", "self.sim_time"), ("_prev_shifted_time", "self._prev_sim_time")):
+
+    # frames: the model's shifted time adds start_clocktime to both current and previous time (the properties are evaluated on a model object)
+    for prop, base in (("_shifted_time", "sim_time"), ("_prev_shifted_time", "_prev_sim_time")):
         f = repo.func(MODEL, "WaterNetworkModel.%s" % prop, kind="getter")
-        r = [s for s in walk(f) if isinstance(s, ast.Return)]
-        txt = unparse(r[0].value) if r else ""
-        chk.expect(set(x.strip() for x in txt.split("+")) == {base, "self.options.time.start_clocktime"}, "R-C04-2", "WaterNetworkModel.%s = %s + start_clocktime" % (prop, base.split(".")[1]), loc(f), found=txt)
+        chk.fn(f)
+        wrong = []
+        for cur, prev, start in ((7200.0, 3600.0, 0.0), (7200.0, 3600.0, 21600.0), (90000.0, 86400.0, 43200.0), (0.0, -1, 3600.0), (1234.0, 1000.0, 86399.0)):
+            opts = Mock("options", time=Mock("options.time", start_clocktime=start))
+            wn = instance_of(world, MODEL, "WaterNetworkModel", sim_time=cur, _prev_sim_time=prev, options=opts, _options=opts)
+            val, err = interpreted("WaterNetworkModel.%s" % prop, lambda: it.getattr_(wn, prop))
+            want = (cur if base == "sim_time" else prev) + start
+            if err or not isinstance(val, (int, float)) or abs(val - want) > 1e-9:
+                wrong.append("%s=%g start_clocktime=%g -> %s (expected %g)" % (base, cur if base == "sim_time" else prev, start, err or val, want))
+        chk.expect(not wrong, "R-C04-2", "WaterNetworkModel.%s = %s + start_clocktime" % (prop, base), loc(f), found="; ".join(wrong[:3]))
 
-    # ---------------------------------------------------------------- R-C04-3 priority order
-    sort_order_rules(repo, chk, "R-C04-3")
-    pre = repo.func(CORE, "WNTRSimulator._compute_next_timestep_and_run_presolve_controls_and_rules")
 
-    # ---------------------------------------------------------------- R-C04-4 rule clock
-    rs = repo.func(CORE, "WNTRSimulator.run_sim")
-    init = [s for s in walk(rs) if isinstance(s, ast.Assign) and unparse(s.targets[0]) == "self._rule_iter"]
-    wl = [n for n in walk(pre) if isinstance(n, ast.While) and "_rule_iter" in unparse(n.test)]
-    if not wl:
-        raise AnchorError("presolve scheduler: no while loop on the rule clock")
-    # abstract first iteration: first_step -> sim_time = 0, no presolve controls pending (cnt = 0 = len), rule_timestep > 0
-    def first_step_guard(s):
-        """True / False if the assignment sits in the then / else branch of `if first_step`, None if unguarded."""
-        q = s
-        while q is not None and q is not rs:
-            par = parent(q)
-            if isinstance(par, ast.If) and unparse(par.test) == "first_step":
-                return q in par.body
-            if isinstance(par, ast.If) and unparse(par.test) == "not first_step":
-                return q not in par.body
-            q = par
+# ------------------------------------------------------------------ R-C04-3 / R-C04-4 / R-C04-6: the scheduler, by simulation against an oracle
+class _Runaway(Exception):
+    """the interpreted scheduler keeps evaluating without making progress."""
+
+
+class _MCtl(object):
+    """stand-in for a control or rule: a name, a priority, whether running it changes the network, and (rules) when its condition holds."""
+    _sa_mock = True
+
+    def __init__(self, box, name, prio, effect, active=None):
+        self._box, self.name, self._name, self.effect, self.active = box, name, name, effect, active
+        self._priority = self.priority = prio
+
+    def run_control_action(self):
+        self._box["runs"].append(self.name)
+        if len(self._box["runs"]) > 400:
+            raise _Runaway("more than 400 control actions in one call")
+        if self.effect:
+            self._box["changed"] = True
+
+    def __repr__(self):
+        return "<control %s>" % self.name
+
+    __str__ = __repr__
+
+
+class _MChecker(object):
+    _sa_mock = True
+
+    def __init__(self, fn):
+        self._fn = fn
+
+    def check(self):
+        return self._fn()
+
+    def __iter__(self):
+        return iter(())
+
+
+class _MTracker(object):
+    """stand-in for ControlChangeTracker: `changes_made` answers whether an action with an effect ran since the reference point was set."""
+    _sa_mock = True
+
+    def __init__(self, box):
+        self._box = box
+
+    def set_reference_point(self, key):
+        self._box["changed"] = False
+
+    def remove_reference_point(self, key):
         return None
-    first_inits = [s for s in init if first_step_guard(s) is not False]
-    chk.expect(bool(first_inits), "R-C04-4", "run_sim initialises the rule clock on a first step", loc(rs))
-    for s in first_inits:
-        v = const(s.value)
-        enters = None
-        if v is not None:
-            # loop condition `cnt < len(...) or self._rule_iter * rule_timestep <= sim_time` with cnt = len = 0, sim_time = 0
-            enters = (v * 360 <= 0)
-        chk.expect(enters is False, "R-C04-4", "rules are not evaluated before the first hydraulic solution (rule clock starts after t = 0)", loc(rs, s),
-                   "with the values reaching the scheduler at the first step (sim_time = 0, _rule_iter = %s) the rule branch `_rule_iter * rule_timestep <= sim_time` is entered: "
-                   "rules act at t = 0 before any solve, unlike EPANET which evaluates rules at the positive multiples of the rule timestep" % unparse(s.value),
-                   expected="_rule_iter >= 1 on a first step (first evaluation at rule_timestep)", found="self._rule_iter = %s" % unparse(s.value))
-    chk.expect(bool(init), "R-C04-4", "run_sim initialises the rule clock", loc(rs))
-    g = CFG(pre)
-    sets = g.nodes_where(lambda node, d: isinstance(node, ast.Assign) and unparse(node.targets[0]) == "self._wn.sim_time" and "_rule_iter" in unparse(node.value))
-    incs = g.nodes_where(lambda node, d: isinstance(node, ast.AugAssign) and unparse(node.target) == "self._rule_iter")
-    checks_ = g.calling("self._rules.check")
-    chk.expect(len(checks_) >= 3 and len(incs) == len(checks_), "R-C04-4", "every evaluation of the rules advances the rule clock exactly once", loc(pre), found=(len(checks_), len(incs)))
-    for c in checks_:
-        # within the loop iteration, exactly one increment precedes/accompanies this check
-        doms = [i for i in incs if g.dominates(i, c)]
-        chk.expect(len(doms) >= 1, "R-C04-4", "rule evaluation at line %d is dominated by an increment of the rule clock" % g.g.nodes[c]["line"], loc(pre, g.node_ast(c)))
-    for s_ in sets:
-        v = unparse(g.node_ast(s_).value)
-        chk.expect(re.fullmatch(r"self\._rule_iter \* self\._wn\.options\.time\.rule_timestep", v) is not None, "R-C04-4", "rules are evaluated at rule_iter * rule_timestep (line %d)" % g.g.nodes[s_]["line"], loc(pre, g.node_ast(s_)), found=v)
 
-    # ---------------------------------------------------------------- R-C04-5 classification
-    classification_rules(repo, chk, "R-C04-5")
+    def changes_made(self, ref_point=None):
+        return self._box["changed"]
 
-    # ---------------------------------------------------------------- R-C04-6 partial step bookkeeping
-    backs = g.nodes_where(lambda node, d: isinstance(node, ast.AugAssign) and unparse(node.target) == "self._wn.sim_time" and isinstance(node.op, ast.Sub) and unparse(node.value) == "backtrack")
-    chk.expect(len(backs) >= 2, "R-C04-6", "a firing pre-solve control moves sim_time back by its back-track (partial step)", loc(pre), found=len(backs))
-    fs = [n for n in walk(pre) if isinstance(n, ast.If) and unparse(n.test) == "first_step"]
-    okfs = bool(fs) and "[(c, 0) for c, b in presolve_controls_to_run]" in unparse(fs[0])
-    chk.expect(okfs, "R-C04-6", "on the first step back-tracks are zeroed (no step before t = 0)", loc(pre))
-    adv = [s for s in walk(rs) if isinstance(s, ast.AugAssign) and unparse(s.target) == "self._wn.sim_time"]
-    txt = [unparse(s) for s in adv]
-    chk.expect("self._wn.sim_time += self._hydraulic_timestep" in txt and "self._wn.sim_time -= overstep" in txt, "R-C04-6", "after an accepted step sim_time advances by one hydraulic step and returns to the hydraulic grid", loc(rs), found=txt)
-    ov = [s for s in walk(rs) if isinstance(s, ast.Assign) and unparse(s.targets[0]) == "overstep"]
-    chk.expect(bool(ov) and re.fullmatch(r"float\(self\._wn\.sim_time\) % self\._hydraulic_timestep", unparse(ov[0].value)) is not None, "R-C04-6", "overstep = sim_time mod hydraulic_timestep", loc(rs), found=unparse(ov[0].value) if ov else None)
-    # change detection precedes the move: sim_time -= backtrack only under changes_made('presolve')
-    for b in backs:
-        p = getattr(g.node_ast(b), "_parent", None)
-        chk.expect(isinstance(p, ast.If) and "changes_made" in unparse(p.test), "R-C04-6", "sim_time is moved back only when the control actually changed something (line %d)" % g.g.nodes[b]["line"], loc(pre, g.node_ast(b))) \
-            if isinstance(p, ast.If) and "changes_made" in unparse(p.test) else None
+    def get_changes(self, ref_point=None):
+        return []
 
-    # ---------------------------------------------------------------- R-C04-7 construction
-    tc = repo.func(CTRL, "Control._time_control")
+
+# presolve entries: (name, priority, backtrack, has effect) in the order the checker reports them; rules: (name, priority, active from, active to, has effect)
+T0 = 3600
+SCENARIOS = [
+    dict(label="three instants, ties reported out of priority order, nothing changes", T=T0, r=360, k0=11, first=False,
+         pres=[("a", 3, 100, 0), ("b", 1, 100, 0), ("c", 2, 500, 0), ("d", 1, 500, 0), ("e", 2, 100, 0), ("f", 0, 0, 0), ("g", 3, 500, 0), ("h", 1, 0, 0)], rules=[]),
+    dict(label="later instant reported first with higher priority value, earliest instant changes the network", T=T0, r=360, k0=11, first=False,
+         pres=[("late", 1, 50, 1), ("early_hi", 3, 900, 1), ("early_lo", 1, 900, 0), ("mid", 2, 400, 1)], rules=[]),
+    dict(label="second instant changes the network", T=T0, r=360, k0=11, first=False,
+         pres=[("x", 2, 700, 0), ("y", 3, 300, 0), ("z", 1, 300, 1), ("w", 2, 300, 0), ("v", 1, 10, 1)], rules=[]),
+    dict(label="nothing changes: the step is not shortened", T=T0, r=360, k0=11, first=False,
+         pres=[("x", 2, 700, 0), ("y", 3, 300, 0)], rules=[]),
+    dict(label="rule instants interleaved with control instants, nothing changes", T=T0, r=360, k0=9, first=False,
+         pres=[("p", 2, 500, 0), ("q", 3, 360, 0), ("q2", 1, 360, 0), ("s", 1, 100, 0), ("u", 2, 0, 0)],
+         rules=[("R3", 3, 0, 99999, 0), ("R1", 1, 0, 99999, 0), ("R2", 2, 3600, 99999, 0), ("R0", 1, 0, 3300, 0)]),
+    dict(label="only rules: three rule instants in the step, the rule becomes true at the second", T=T0, r=1200, k0=1, first=False,
+         pres=[], rules=[("late", 1, 2400, 99999, 1), ("never", 0, 5000, 99999, 1), ("idle", 3, 0, 99999, 0)]),
+    dict(label="rule instant before the control instant, the rule changes the network", T=T0, r=360, k0=9, first=False,
+         pres=[("c1", 1, 100, 1)], rules=[("R", 2, 3240, 99999, 1)]),
+    dict(label="control instant before the rule instant, the control changes the network", T=T0, r=360, k0=10, first=False,
+         pres=[("c1", 1, 100, 1), ("c0", 2, 0, 1)], rules=[("R", 2, 0, 99999, 1)]),
+    dict(label="control and rule at the same instant, only the control changes the network", T=T0, r=250, k0=14, first=False,
+         pres=[("c1", 2, 100, 1), ("c2", 1, 100, 0), ("c3", 1, 40, 1)], rules=[("R", 2, 0, 99999, 0), ("Q", 1, 0, 99999, 0)]),
+    dict(label="control and rule at the same instant, nothing changes, a later rule does", T=T0, r=300, k0=11, first=False,
+         pres=[("c1", 2, 300, 0)], rules=[("R", 2, 3600, 99999, 1)]),
+    dict(label="first step at t = 0: rules whose condition holds, controls without back-track", T=0, r=360, k0=1, first=True,
+         pres=[("a", 3, 0, 0), ("b", 1, 0, 1), ("c", 2, 0, 0)], rules=[("R", 1, 0, 99999, 1)]),
+    dict(label="first step at t = 0: a control reporting a back-track", T=0, r=360, k0=1, first=True,
+         pres=[("a", 1, 250, 1)], rules=[]),
+    dict(label="continued run: rule clock well inside the simulation", T=50 * T0, r=900, k0=197, first=False,
+         pres=[("a", 1, 1000, 0), ("b", 1, 900, 0)], rules=[("R", 1, 0, 10 ** 9, 0)]),
+]
+RUNNERS = [
+    ("_run_feasibility_controls", "_feasibility_controls", "feasibility"),
+    ("_run_postsolve_controls", "_postsolve_controls", "post-solve"),
+]
+RUNNER_LISTS = [
+    [("a", 3, 0, 1), ("b", 1, 0, 1), ("c", 2, 0, 1), ("d", 1, 0, 0), ("e", 0, 0, 1), ("f", 3, 0, 0), ("g", 2, 0, 1)],
+    [("only", 2, 0, 1)],
+]
+
+
+def scheduler_oracle(sc):
+    """the statement's schedule for one call: instants in time order (control instant = T - backtrack, rule instants = the multiples k * r <= T from
+    the rule clock on); at one instant the rules act first, then the controls; within each, ascending priority (ties in reported order) so that the
+    highest priority acts last; the call stops at the first instant at which something changed and leaves sim_time there."""
+    T, r, k = sc["T"], sc["r"], sc["k0"]
+    pres = [(n, p, (0 if sc["first"] else b), eff) for (n, p, b, eff) in sc["pres"]]
+    order = sorted(range(len(pres)), key=lambda i: (-pres[i][2], pres[i][1]))
+    groups = []
+    for i in order:
+        if groups and groups[-1][0] == pres[i][2]:
+            groups[-1][1].append(i)
+        else:
+            groups.append((pres[i][2], [i]))
+    runs, checks, changed, final, gi = [], [], False, T, 0
+    while gi < len(groups) or k * r <= T:
+        if gi >= len(groups):
+            mode = "rules"
+        else:
+            tc, tr = T - groups[gi][0], k * r
+            mode = "controls" if tc < tr else ("both" if tc == tr else "rules")
+        if mode in ("rules", "both"):
+            t = k * r
+            k += 1
+            checks.append(t)
+            act = [j for j, ru in enumerate(sc["rules"]) if ru[2] <= t <= ru[3]]
+            act.sort(key=lambda j: sc["rules"][j][1])
+            for j in act:
+                runs.append(sc["rules"][j][0])
+                changed = changed or bool(sc["rules"][j][4])
+        if mode in ("controls", "both"):
+            b, idxs = groups[gi]
+            gi += 1
+            t = T - b
+            for i in idxs:
+                runs.append(pres[i][0])
+                changed = changed or bool(pres[i][3])
+        if changed:
+            final = t
+            break
+    return dict(runs=runs, checks=checks, final=final, k=k)
+
+
+def simulator_world(repo, box):
+    from ..concrete import Namespace
+
+    def heads(wn):
+        box["heads"].append(wn.sim_time)
+    hyd = Namespace("wntr.sim.hydraulics", update_tank_heads=heads)
+    world, _ = make_world(repo, {"wntr.sim.hydraulics": hyd})
+    return world
+
+
+def simulator_instance(world, box, T, r, k0, pres, rules, extra=None):
+    """a WNTRSimulator whose collaborators are stand-ins; -> (sim, wn)"""
+    times = Mock("options.time", rule_timestep=r, hydraulic_timestep=T0, report_timestep=T0, pattern_timestep=T0, duration=100 * T0, start_clocktime=0)
+    wn = Mock("wn", sim_time=T, _prev_sim_time=(T - T0 if T else -1), options=Mock("options", time=times), name="mock")
+    pres_objs = [(_MCtl(box, n, p, eff), b) for (n, p, b, eff) in pres]
+    rule_objs = [_MCtl(box, n, p, eff, (a0, a1)) for (n, p, a0, a1, eff) in rules]
+
+    def check_rules():
+        box["checks"].append(wn.sim_time)
+        if len(box["checks"]) > 200:
+            raise _Runaway("more than 200 evaluations of the rules in one call")
+        return [(ru, 0) for ru in rule_objs if ru.active[0] <= wn.sim_time <= ru.active[1]]
+    attrs = dict(_wn=wn, _change_tracker=_MTracker(box), _presolve_controls=_MChecker(lambda: list(pres_objs)), _rules=_MChecker(check_rules),
+                 _postsolve_controls=_MChecker(lambda: []), _feasibility_controls=_MChecker(lambda: []), _rule_iter=k0,
+                 _hydraulic_timestep=T0, _report_timestep=T0, mode="DD")
+    attrs.update(extra or {})
+    return instance_of(world, CORE, "WNTRSimulator", **attrs), wn
+
+
+def scheduler_rules(repo, chk):
+    sclasses = repo.classes(CORE)
+    if "WNTRSimulator" not in sclasses:
+        raise AnchorError("class WNTRSimulator vanished")
+    smeths = resolved_methods(sclasses, "WNTRSimulator")
+    SCHED = "_compute_next_timestep_and_run_presolve_controls_and_rules"
+    for nm in [SCHED] + [r_[0] for r_ in RUNNERS]:
+        if nm not in smeths:
+            raise AnchorError("WNTRSimulator.%s vanished" % nm)
+    pre = smeths[SCHED]
+    chk.fn(pre)
+    pnames = [a.arg for a in pre.args.args]
+    if len(pnames) != 2:
+        raise AnchorError("%s: expected the parameters (self, first_step), found %s" % (SCHED, pnames))
+    for log_level in (30, 1):
+        for sc in SCENARIOS:
+            if log_level == 1 and sc is not SCENARIOS[0] and sc is not SCENARIOS[4]:
+                continue            # the trace-logging variant of the code paths is exercised on two scenarios
+            box = dict(runs=[], checks=[], heads=[], changed=False)
+            world = simulator_world(repo, box)
+            world.log_state["log_level"] = log_level
+            sim, wn = simulator_instance(world, box, sc["T"], sc["r"], sc["k0"], sc["pres"], sc["rules"])
+            label = sc["label"] + (" [trace logging on]" if log_level == 1 else "")
+            want = scheduler_oracle(sc)
+            runaway = None
+            try:
+                _, err = interpreted(SCHED, lambda: world.interp.getattr_(sim, SCHED)(sc["first"]))
+            except _Runaway as e:
+                err, runaway = None, str(e)
+            got = dict(runs=box["runs"], checks=box["checks"], final=wn.sim_time, k=sim._attrs.get("_rule_iter"))
+            setting = "T = %d s, rule timestep %d s, rule clock %d, first_step = %s; pre-solve (name, priority, back-track, changes): %s; rules (name, priority, true from, to, changes): %s" % (
+                sc["T"], sc["r"], sc["k0"], sc["first"], sc["pres"], sc["rules"])
+            if err:
+                for rule in ("R-C04-3", "R-C04-4", "R-C04-6"):
+                    chk.bad(rule, "[%s] the scheduler runs" % label, loc(pre), setting, found="raises " + err)
+                continue
+            chk.expect(runaway is None and got["runs"] == want["runs"], "R-C04-3",
+                       "[%s] actions run in time order and, at one instant, ascending by priority (the highest priority acts last and wins)" % label, loc(pre),
+                       setting + " -- the scheduler rewinds to the first instant at which something changes and stops: an order whose primary key is not the firing "
+                       "instant lets a control crossed later in the step pre-empt one crossed earlier; among equal instants the last writer wins",
+                       expected=want["runs"], found=runaway or got["runs"])
+            chk.expect(runaway is None and got["checks"] == want["checks"] and got["k"] == want["k"], "R-C04-4",
+                       "[%s] rules are evaluated at the consecutive multiples of the rule timestep up to the step's end, each once, and the rule clock ends after the last one evaluated" % label,
+                       loc(pre), setting, expected="evaluated at %s, clock -> %s" % (want["checks"], want["k"]), found=runaway or "evaluated at %s, clock -> %s" % (got["checks"], got["k"]))
+            chk.expect(runaway is None and got["final"] == want["final"], "R-C04-6",
+                       "[%s] sim_time on return is the first instant at which something changed (the unshortened step if nothing did; never before t = 0 on the first step)" % label,
+                       loc(pre), setting, expected=want["final"], found=runaway or got["final"])
+            chk.sample({"rule": "R-C04-3", "scenario": label, "runs": got["runs"], "rule_evaluations": got["checks"], "sim_time": got["final"], "rule_clock": got["k"]})
+    chk.floor("R-C04-3", len(SCENARIOS))
+    chk.floor("R-C04-4", len(SCENARIOS))
+    chk.floor("R-C04-6", len(SCENARIOS))
+
+    # the two other runners: feasibility and post-solve controls act ascending by priority (ties in reported order)
+    for meth, attr, what in RUNNERS:
+        fn = smeths[meth]
+        chk.fn(fn)
+        for lst in RUNNER_LISTS:
+            for log_level in (30, 1):
+                box = dict(runs=[], checks=[], heads=[], changed=False)
+                world = simulator_world(repo, box)
+                world.log_state["log_level"] = log_level
+                objs = [(_MCtl(box, n, p, eff), b) for (n, p, b, eff) in lst]
+                sim, wn = simulator_instance(world, box, T0, 360, 11, [], [], extra={attr: _MChecker(lambda objs=objs: list(objs))})
+                _, err = interpreted(meth, lambda: world.interp.getattr_(sim, meth)())
+                want = [x[0] for x in sorted(lst, key=lambda x: x[1])]
+                label = "%d %s controls reported as %s%s" % (len(lst), what, [(n, p) for n, p, _, _ in lst], " [trace logging on]" if log_level == 1 else "")
+                chk.expect(err is None and box["runs"] == want, "R-C04-3", "[%s] %s runs them ascending by priority (the highest priority acts last and wins)" % (label, meth), loc(fn),
+                           "controls run in list order and later writes overwrite earlier ones", expected=want, found=err or box["runs"])
+                chk.expect(err is None and wn.sim_time == T0, "R-C04-6", "[%s] %s leaves sim_time alone" % (label, meth), loc(fn), expected=T0, found=err or wn.sim_time)
+
+
+# ------------------------------------------------------------------ R-C04-4 / R-C04-6: what run_sim hands to the scheduler
+class TrackingExec(SymExec):
+    """SymExec in which a store to one of the `tracked` attribute paths is remembered on the path: a later load of that attribute yields the
+    stored value (plain SymExec treats every load of an attribute as the same unknown)."""
+
+    def __init__(self, tracked, **kw):
+        SymExec.__init__(self, **kw)
+        self.tracked = set(tracked)
+
+    def e_Attribute(self, n, st):
+        base = self.ev(n.value, st)
+        if isinstance(base, Opaque) and ("@" + base.text + "." + n.attr) in st.env:
+            return st.env["@" + base.text + "." + n.attr]
+        return SymExec.e_Attribute(self, n, st)
+
+    def assign(self, t, v, st, stmt=None):
+        if isinstance(t, ast.Attribute):
+            base = self.ev(t.value, st)
+            if isinstance(base, Opaque) and (base.text + "." + t.attr) in self.tracked:
+                st.events.append(("store", base.text + "." + t.attr, v, getattr(stmt, "lineno", 0), tuple(l[1] for l in st.loops)))
+                st.env["@" + base.text + "." + t.attr] = v
+                return
+        return SymExec.assign(self, t, v, st, stmt)
+
+
+def _forces_first_step(conds):
+    """what the path conditions say about `sim_time == 0` at the start of run_sim: True / False / None (not determined)."""
+    out = []
+
+    def is_time(n):
+        return isinstance(n, ast.Attribute) and n.attr == "sim_time"
+
+    def walk_(node, val):
+        if isinstance(node, ast.Call) and isinstance(node.func, ast.Name) and node.func.id == "bool" and len(node.args) == 1:
+            return walk_(node.args[0], val)
+        if isinstance(node, ast.UnaryOp) and isinstance(node.op, ast.Not):
+            if is_time(node.operand):
+                out.append(not val)
+                return
+            return walk_(node.operand, not val)
+        if isinstance(node, ast.BoolOp):
+            if (isinstance(node.op, ast.And) and val) or (isinstance(node.op, ast.Or) and not val):
+                for v in node.values:
+                    walk_(v, val)
+            return
+        if isinstance(node, ast.Compare) and len(node.ops) == 1:
+            l, r, op = node.left, node.comparators[0], node.ops[0]
+            zero = lambda x: isinstance(x, ast.Constant) and not isinstance(x.value, bool) and x.value == 0
+            if (is_time(l) and zero(r)) or (zero(l) and is_time(r)):
+                if isinstance(op, (ast.Eq, ast.Is)):
+                    out.append(val)
+                elif isinstance(op, (ast.NotEq, ast.IsNot)):
+                    out.append(not val)
+                elif isinstance(op, ast.Gt) and is_time(l) or isinstance(op, ast.Lt) and is_time(r):
+                    out.append(not val)          # sim_time > 0  (sim_time is never negative)
+                elif isinstance(op, ast.LtE) and is_time(l) or isinstance(op, ast.GtE) and is_time(r):
+                    out.append(val)              # sim_time <= 0
+            elif isinstance(r, ast.Constant) and isinstance(r.value, bool) and isinstance(op, (ast.Eq, ast.Is, ast.NotEq, ast.IsNot)):
+                walk_(l, val == (r.value == isinstance(op, (ast.Eq, ast.Is))))
+    for txt, v in conds:
+        if "sim_time" not in txt:
+            continue
+        try:
+            walk_(ast.parse(txt, mode="eval").body, bool(v))
+        except SyntaxError:
+            continue
+    if True in out and False in out:
+        return None
+    return out[0] if out else None
+
+
+def run_sim_rules(repo, chk):
+    rs = repo.func(CORE, "WNTRSimulator.run_sim")
+    chk.fn(rs)
+    # ---- R-C04-4: the value of the rule clock with which a first step (sim_time == 0) enters the time loop
+    loops = [i for i, s in enumerate(rs.body) if isinstance(s, ast.While)]
+    if not loops:
+        raise AnchorError("run_sim: no time loop")
+    prefix = ast.FunctionDef(name="run_sim", args=rs.args, body=rs.body[:loops[0]], decorator_list=[], returns=None, lineno=rs.lineno, col_offset=0)
     ex = SymExec()
-    seen = {}
-    for o in ex.run(tc):
-        if o.raised:
+    inits, first = [], []
+    for o in ex.run(prefix):
+        if o.raised is not None:
+            continue
+        i, v = _last_store(o, "self._rule_iter")
+        if i is None:
+            continue
+        inits.append(v)
+        if _forces_first_step(o.conds) is not False:
+            first.append((v, o.events[i][3]))
+    chk.expect(bool(inits), "R-C04-4", "run_sim initialises the rule clock", loc(rs))
+    chk.expect(bool(first), "R-C04-4", "run_sim initialises the rule clock on a first step", loc(rs))
+    seen = set()
+    for v, line in first:
+        if (str(v), line) in seen:
+            continue
+        seen.add((str(v), line))
+        num = v if isinstance(v, (int, float)) and not isinstance(v, bool) else (int(v) if getattr(v, "is_Integer", False) else None)
+        # scheduler's loop condition `... or _rule_iter * rule_timestep <= sim_time` with sim_time = 0 and a positive rule timestep
+        enters = None if num is None else (num * 360 <= 0)
+        chk.expect(enters is False, "R-C04-4", "rules are not evaluated before the first hydraulic solution (rule clock starts after t = 0)", "%s:%s" % (CORE, line),
+                   "with the values reaching the scheduler at the first step (sim_time = 0, _rule_iter = %s) the rule branch `_rule_iter * rule_timestep <= sim_time` is entered: "
+                   "rules act at t = 0 before any solve, unlike EPANET which evaluates rules at the positive multiples of the rule timestep" % (v,),
+                   expected="_rule_iter >= 1 on a first step (first evaluation at rule_timestep)", found="self._rule_iter = %s" % (v,))
+
+    # ---- R-C04-6: after an accepted step the time advances by one hydraulic step and returns to the hydraulic grid
+    import sympy as sp
+    tx = TrackingExec({"self._wn.sim_time"})
+    finals = {}
+    for o in tx.run(rs):
+        if o.raised is not None:
+            continue
+        i, v = _last_store(o, "self._wn.sim_time")
+        if i is not None:
+            try:
+                finals.setdefault(str(tx.S(v)), (tx.S(v), o.events[i][3]))
+            except ExtractError:
+                finals.setdefault(str(v), (None, o.events[i][3]))
+    chk.expect(bool(finals), "R-C04-6", "run_sim advances sim_time after an accepted step", loc(rs))
+    t_, h_ = tx.sym("self._wn.sim_time"), tx.sym("self._hydraulic_timestep")
+    for txt, (expr, line) in sorted(finals.items()):
+        wrong = None
+        if expr is None or not (expr.free_symbols <= {t_, h_}):
+            wrong = "depends on more than the current time and the hydraulic timestep"
+        else:
+            for t0, h0 in ((0, 3600), (3600, 3600), (3500, 3600), (7199, 3600), (7200, 900), (1000, 900), (250.5, 60)):
+                val = expr.subs({t_: sp.nsimplify(t0), h_: h0})
+                want = math.floor((t0 + h0) / h0) * h0
+                if not val.is_number or abs(float(val) - want) > 1e-9:
+                    wrong = "from t = %s with a hydraulic timestep of %s s the next time is %s, expected %s" % (t0, h0, val, want)
+                    break
+        chk.expect(wrong is None, "R-C04-6", "after an accepted step sim_time advances by one hydraulic step and returns to the hydraulic grid", "%s:%s" % (CORE, line),
+                   "a step shortened by a control must not shift all later steps off the grid; a full step must advance by exactly one hydraulic timestep",
+                   expected="the largest multiple of the hydraulic timestep not after t + hydraulic_timestep", found="%s (%s)" % (wrong, txt) if wrong else txt)
+
+
+# ------------------------------------------------------------------ R-C04-7: construction of time controls
+def _bind(fn, args, kwargs, skip=1):
+    """parameter name -> argument value of a call of fn (skip = number of leading parameters bound implicitly: self / cls)."""
+    params = [a.arg for a in fn.args.args][skip:]
+    out = dict(zip(params, args))
+    out.update(kwargs)
+    return out
+
+
+def construction_rules(repo, chk):
+    classes = repo.classes(CTRL)
+    cmeths = resolved_methods(classes, "Control")
+    tc = cmeths.get("_time_control")
+    if tc is None:
+        raise AnchorError("Control._time_control vanished")
+    chk.fn(tc)
+    tparams = [a.arg for a in tc.args.args]
+    if len(tparams) < 6:
+        raise AnchorError("Control._time_control: expected (cls, model, time, time flag, daily flag, action, ...), found %s" % tparams)
+    p_time, p_flag, p_daily = tparams[2], tparams[3], tparams[4]
+    for flag, cls_ in (("SIM_TIME", "SimTimeCondition"), ("CLOCK_TIME", "TimeOfDayCondition"), ("sim_time", "SimTimeCondition"), ("clock_time", "TimeOfDayCondition")):
+        built = []
+
+        def hook(name, n, args, kwargs, st, ex, recv, built=built):
+            if isinstance(recv, str) and isinstance(n.func, ast.Attribute) and n.func.attr in ("upper", "lower", "strip", "casefold") and not args:
+                return getattr(recv, n.func.attr)()
+            callee = name
+            if isinstance(n.func, ast.Name) and isinstance(st.env.get(n.func.id), Opaque):
+                callee = st.env[n.func.id].text          # class picked from a table / bound to a local first
+            if callee and callee.split(".")[-1] in classes and "ControlCondition" in class_ancestors(classes, callee.split(".")[-1]):
+                built.append((callee.split(".")[-1], list(args), dict(kwargs)))
+            return NotImplemented
+        ex = SymExec(call_hook=hook)
+        live = [o for o in ex.run(tc, env={p_flag: flag}) if o.raised is None]
+        got = None
+        if len(built) >= 1 and all(b == built[0] for b in built):
+            cname, args, kwargs = built[0]
+            init = resolved_methods(classes, cname).get("__init__")
+            b = _bind(init, args, kwargs) if init is not None else {}
+            got = (cname, b.get("threshold"), b.get("repeat"), b.get("relation"))
+        okc = bool(live) and got is not None and got[0] == cls_ and got[1] == Opaque(p_time) and got[2] == Opaque(p_daily) and isinstance(got[3], Opaque) and got[3].text == "Comparison.eq"
+        chk.expect(okc, "R-C04-7", "Control._time_control(%s) builds %s(eq, run_at_time, repeat=daily_flag)" % (flag, cls_), loc(tc), found=got if got else built[:2])
+    rcl = repo.func(IO, "_read_control_line")
+    chk.fn(rcl)
+    seen, wrong = set(), []
+    for o in SymExec().run(rcl):
+        if o.raised is not None:
             continue
         for e in o.events:
-            if e[0] == "call" and (e[1].startswith("SimTimeCondition(") or e[1].startswith("TimeOfDayCondition(")):
-                flag = "SIM_TIME" if any("'SIM_TIME'" in t and v for t, v in o.conds) else ("CLOCK_TIME" if any("'CLOCK_TIME'" in t and v for t, v in o.conds) else "?")
-                kw = e[2][2]
-                seen[flag] = (e[1].split("(")[0], kw.get("threshold"), kw.get("repeat"), kw.get("relation"))
-    for flag, cls_ in (("SIM_TIME", "SimTimeCondition"), ("CLOCK_TIME", "TimeOfDayCondition")):
-        got_ = seen.get(flag)
-        okc = got_ is not None and got_[0] == cls_ and got_[1] == Opaque("run_at_time") and got_[2] == Opaque("daily_flag") and isinstance(got_[3], Opaque) and got_[3].text == "Comparison.eq"
-        chk.expect(okc, "R-C04-7", "Control._time_control(%s) builds %s(eq, run_at_time, repeat=daily_flag)" % (flag, cls_), loc(tc), found=got_)
-    rcl = repo.func(IO, "_read_control_line")
-    tcalls = [c for c in calls(rcl) if call_name(c) == "Control._time_control"]
-    got_ = sorted((const(c.args[2]), const(c.args[3])) for c in tcalls if len(c.args) >= 4)
-    chk.expect(got_ == [("CLOCK_TIME", True), ("SIM_TIME", False)], "R-C04-7", "the INP reader creates CLOCKTIME controls as daily and TIME controls as one-shot", loc(rcl), found=got_)
-    for c in tcalls:
-        chk.expect(unparse(c.args[1]) == "run_at_time" and unparse(c.args[4]) == "action_obj", "R-C04-7", "reader passes the parsed time and the action (line %d)" % c.lineno, loc(rcl, c))
-
+            if e[0] != "call" or not (e[2][0] or "").endswith("._time_control"):
+                continue
+            b = _bind(tc, e[2][1], e[2][2])
+            fl, dl, tm, ac = b.get(p_flag), b.get(p_daily), b.get(p_time), b.get(tparams[5])
+            seen.add((fl if isinstance(fl, str) else str(fl), dl if isinstance(dl, bool) else str(dl)))
+            if tm is None or isinstance(tm, (bool, int, float, str)):
+                wrong.append("line %s: the time passed is the constant %r" % (e[3], tm))
+            if not (isinstance(ac, Opaque) and "ControlAction(" in ac.text):
+                wrong.append("line %s: the action passed is %r, not the ControlAction built from the line" % (e[3], ac))
+    chk.expect(sorted(seen) == [("CLOCK_TIME", True), ("SIM_TIME", False)], "R-C04-7", "the INP reader creates CLOCKTIME controls as daily and TIME controls as one-shot", loc(rcl), found=sorted(seen))
+    chk.expect(not wrong and bool(seen), "R-C04-7", "reader passes the parsed time and the action", loc(rcl), found=sorted(set(wrong))[:3])
 
 
 # ------------------------------------------------------------------ classification of controls (decided by execution, not by shape)
@@ -593,102 +1018,6 @@ def classification_rules(repo, chk, rule):
     chk.expect(not missing and bool(allsrcs), rule, "user controls and all internal control families are categorised", loc(gm), found=missing[:4] or allsrcs)
     chk.sample({"rule": rule, "registrations": dict((m, dict((k, sorted(v)) for k, v in regs[m].items())) for m in members)})
 
-
-# ------------------------------------------------------------------ effective ordering of the control lists
-SORT_FUNCS = ("WNTRSimulator._compute_next_timestep_and_run_presolve_controls_and_rules", "WNTRSimulator._run_feasibility_controls",
-              "WNTRSimulator._run_postsolve_controls")
-
-
-def _key_components(lam):
-    """lambda i: <expr> -> [(component, 'asc'|'desc')] with component in {priority, backtrack}; None if not recognised."""
-    if not isinstance(lam, ast.Lambda) or len(lam.args.args) != 1:
-        return None
-    v = lam.args.args[0].arg
-
-    def one(e):
-        sign = "asc"
-        while isinstance(e, ast.UnaryOp) and isinstance(e.op, ast.USub):
-            sign = "desc" if sign == "asc" else "asc"
-            e = e.operand
-        t = unparse(e)
-        if t in ("%s[0]._priority" % v, "%s[0].priority" % v, "int(%s[0]._priority)" % v):
-            return ("priority", sign)
-        if t == "%s[1]" % v:
-            return ("backtrack", sign)
-        return None
-    body = lam.body
-    elts = body.elts if isinstance(body, ast.Tuple) else [body]
-    out = [one(e) for e in elts]
-    return None if any(o is None for o in out) else out
-
-
-def effective_orders(fn, listname):
-    """[(effective lexicographic order, sort calls)] per definition of `listname` in fn: successive (stable) sorts of one list
-    value compose, the last sort being the primary key; a re-assignment of the list starts a new group."""
-    defs = sorted(n.lineno for n in walk(fn) if isinstance(n, ast.Assign) and any(isinstance(t, ast.Name) and t.id == listname for t in n.targets))
-    groups = {}
-    for c in calls(fn, attr="sort"):
-        if unparse(c.func.value) != listname:
-            continue
-        key = [k.value for k in c.keywords if k.arg == "key"]
-        rev = [k.value for k in c.keywords if k.arg == "reverse"]
-        comps = _key_components(key[0]) if key else None
-        if comps is None:
-            raise ExtractError("sort key of %s at line %d not recognised: %s" % (listname, c.lineno, unparse(c)))
-        if rev:
-            rv = const(rev[0])
-            if rv not in (True, False):
-                raise ExtractError("sort reverse= of %s at line %d is not a constant" % (listname, c.lineno))
-            if rv:
-                comps = [(n, "desc" if d == "asc" else "asc") for n, d in comps]
-        d = max([l for l in defs if l < c.lineno] or [0])
-        groups.setdefault(d, []).append((c, comps))
-    out = []
-    for d in sorted(groups):
-        seq = groups[d]
-        eff = []
-        for c, comps in reversed(seq):
-            for n, dr in comps:
-                if n not in [x[0] for x in eff]:
-                    eff.append((n, dr))
-        out.append((eff, seq))
-    return out
-
-
-def sort_order_rules(repo, chk, rule):
-    lists = []
-    for qual in SORT_FUNCS:
-        fn = repo.func(CORE, qual)
-        chk.fn(fn)
-        names = []
-        for c in calls(fn, attr="sort"):
-            nm = unparse(c.func.value)
-            if nm not in names:
-                names.append(nm)
-        for nm in names:
-            lists.append((qual.split(".")[1], nm, fn))
-    nsites = 0
-    for fnname, lst, fn in lists:
-      for eff, seq in effective_orders(fn, lst):
-        nsites += 1
-        where = loc(fn, seq[0][0])
-        if lst == "presolve_controls_to_run":
-            want = [("backtrack", "desc"), ("priority", "asc")]
-            chk.expect(eff == want, rule, "pre-solve controls are ordered by time (largest back-track first) and, among equal instants, ascending by priority "
-                       "(highest priority runs last and wins)", where,
-                       "the scheduler rewinds to the first control that changes something and stops: an ordering whose primary key is not the firing "
-                       "instant lets a control crossed later in the step pre-empt one crossed earlier", expected=want, found=eff)
-        else:
-            want = [("priority", "asc")]
-            chk.expect(eff == want, rule, "%s sorts %s (defined at line-group %d) ascending by priority alone (highest priority runs last and wins)" % (
-                fnname, lst, [g[1] for g in effective_orders(fn, lst)].index(seq)), where,
-                       "controls run in list order and later writes overwrite earlier ones", expected=want, found=eff)
-        runs = [x for x in walk(fn) if isinstance(x, ast.For) and unparse(x.iter) == lst and any(last_attr(cc) == "run_control_action" for cc in calls(x))]
-        idx = [cc for cc in calls(fn, attr="run_control_action") if lst in unparse(cc) or unparse(cc.func.value) == "control"]
-        chk.expect(bool(runs) or bool(idx), rule, "%s executes %s (group %d) in list order" % (fnname, lst, [g[1] for g in effective_orders(fn, lst)].index(seq)), where)
-    chk.floor(rule, 12)
-    if nsites < 6:
-        chk.error("%s: only %d sorted control lists found (pre-solve, rules x3, feasibility, post-solve expected)" % (rule, nsites))
 
 WITNESSES = [
     dict(name="simtime-eq-strict", file=CTRL, old="        if self._relation is Comparison.eq and (prev_time < self._threshold and self._threshold <= cur_time):\n            self._backtrack = int(cur_time - self._threshold)\n            return True\n        elif self._relation is Comparison.gt and cur_time > self._threshold:",
